@@ -98,6 +98,13 @@ func refCompare(cols []gen.SortCol) func(a, b gen.Keyed) int {
 				r = cmpOrd(a.F, b.F)
 			case "pay":
 				r = bytes.Compare([]byte(a.Pay), []byte(b.Pay))
+			case "sum":
+				switch {
+				case a.Sum < b.Sum:
+					r = -1
+				case a.Sum > b.Sum:
+					r = +1
+				}
 			case "k2":
 				switch {
 				case a.K2 == nil && b.K2 == nil:
@@ -157,13 +164,11 @@ func (C10) Run(s any, c *core.Ctx) core.Outcome {
 	for i := range vals {
 		vals[i] = makeKeyed(r, keys[i], 0)
 		vals[i].Seq = int64(i)
-		vals[i].Sum = keyedSum(vals[i])
 	}
 	prior := make([]gen.Keyed, sc.PriorN)
 	for i := range prior {
 		prior[i] = makeKeyed(r, int64(r.Intn(50)), 9)
 		prior[i].Seq = int64(i)
-		prior[i].Sum = keyedSum(prior[i])
 	}
 	model := make([]parquet.Row, sc.N)
 	for i := range vals {
